@@ -7,12 +7,26 @@ import numpy as np
 from .. import gen, impl, oracle, progs, ser, stream
 
 ID = "C11"
-LEVEL = "translation_validation"
-PROPS_MODULE = None
-THEOREMS = []
-LEAN_FILES = []
-PLANNED = ["qr_reconstructs / svd_reconstructs / eigh_reconstructs / solve_solves under the kernel contract",
-           "bond_index_spec"]
+LEVEL = "proof"
+PROPS_MODULE = "SymmModel.Props.C11"
+THEOREMS = [
+    "SymmModel.C11.bond_index_spec_qr",
+    "SymmModel.C11.bond_index_spec_svd",
+    "SymmModel.C11.factor_blocks_are_kernel_outputs",
+    "SymmModel.C11.qrA_valid",
+    "SymmModel.C11.svdA_valid",
+    "SymmModel.C11.eighA_valid",
+    "SymmModel.C11.solveA_valid",
+    "SymmModel.C11.solve_odd_matrix_invalid",
+    "SymmModel.C11.applyCounts_valid",
+    "SymmModel.C11.qr_reconstructs",
+    "SymmModel.C11.svd_reconstructs",
+    "SymmModel.C11.solve_solves",
+    "SymmModel.C11.qr_reconstructs_fermionic",
+    "SymmModel.C11.svd_reconstructs_fermionic"
+]
+LEAN_FILES = ["SymmModel.Props.C11", "SymmModel.Proofs.LinalgLemmas", "SymmModel.Proofs.LinalgFactors", "SymmModel.Proofs.LinalgDense", "SymmModel.Proofs.LinalgSolve", "SymmModel.Proofs.LinalgTrunc", "SymmModel.Proofs.LinalgRecon", "SymmModel.Proofs.LinalgFermi", "SymmModel.Proofs.LinalgSolveRecon"]
+PLANNED = ["eigh_reconstructs", "solve_solves for fermionic arrays", "fermionic reconstruction through tensordot_fermionic in fused mode", "fermionic reconstruction for inputs with more than one odd-position label"]
 RULE = ("random abelian and fermionic matrices (all symmetries; direct or obtained by fusing rank-3/4 arrays; every "
         "dualness pattern and total charge incl. odd; tall, wide, square and rank-deficient blocks; missing blocks; "
         "real/complex; pending signs): qr (plain and stabilised), svd, eigh (Hermitian charge-zero), solve. The "
